@@ -1344,6 +1344,103 @@ def run_case(case, props, exact_thr=False):
     return guarded(run, props)
 
 
+
+# ------------------------------------------------------------------------------------- hooks (oracle only)
+# A user subclass that overrides the documented routing hook `index_of` (here: the mirror image of the measure space,
+# which maps it onto itself).  Every entry point must route through the hook -- add, add_single, retrieve,
+# retrieve_single, index_of_single -- so the subclass behaves exactly like the stock archive fed with mirrored measures.
+
+def gen_hooks(rng):
+    kind = rng.choice(["grid", "grid", "cvt"])
+    nd = rng.choice([1, 2, 3])
+    return {"kind": "hooks", "arch": kind, "nd": nd, "dims": [rng.choice([2, 3, 5, 7]) for _ in range(nd)],
+            "lo": [rng.choice([-1.0, 0.0, -3.5]) for _ in range(nd)], "w": [rng.choice([1.0, 2.0, 7.0]) for _ in range(nd)],
+            "dtype": rng.choice(["f64", "f64", "f32"]), "mae": rng.random() < 0.4, "seed": rng.randrange(10**6),
+            "ops": [{"op": rng.choice(["add", "add1", "add1", "query"]), "n": rng.randint(1, 6)} for _ in range(rng.randint(4, 12))]}
+
+
+def run_hooks(case, props):
+    from ribs.archives import CVTArchive, GridArchive
+    label = sorted(props)[0]
+    r = np.random.default_rng(case["seed"])
+    npdt = NP[case["dtype"]]
+    nd = case["nd"]
+    lo = np.array(case["lo"])
+    hi = lo + np.array(case["w"])
+    ranges = list(zip(lo.tolist(), hi.tolist()))
+    kw = dict(learning_rate=0.5, threshold_min=-2.0) if case["mae"] else {}
+    if case["arch"] == "grid":
+        base_cls, ckw = GridArchive, dict(dims=case["dims"], ranges=ranges)
+    else:
+        cents = r.uniform(lo, hi, size=(12, nd))
+        base_cls, ckw = CVTArchive, dict(cells=12, ranges=ranges, custom_centroids=cents)
+
+    def mirror(m):
+        return (lo + hi) - np.asarray(m, dtype=np.float64)
+
+    class Mirrored(base_cls):
+        """routes a solution by the mirror image of its measures (the documented hook for child classes)"""
+
+        def index_of(self, measures):
+            return super().index_of(mirror(measures))
+
+    a = Mirrored(solution_dim=2, dtype=npdt, **ckw, **kw)
+    b = base_cls(solution_dim=2, dtype=npdt, **ckw, **kw)
+
+    def bad(what):
+        return Failure("oracle", f"[{label}] a subclass of {base_cls.__name__} ({case['dtype']}) overriding index_of "
+                       f"(mirrored measure space): {what}")
+
+    def grid_vals(n):
+        # quarter points of the cells of every dimension (never on an edge), exactly representable
+        return np.stack([lo[k] + (r.integers(0, 4 * 7, size=n) * 2 + 1) * (hi[k] - lo[k]) / 56 for k in range(nd)], axis=1)
+    tok = 0
+    for k, op in enumerate(case["ops"]):
+        n = op["n"]
+        meas = grid_vals(n)
+        if op["op"] == "query":
+            ia, ib = a.index_of(meas), b.index_of(mirror(meas))
+            if not np.array_equal(ia, ib):
+                return bad(f"op#{k}: index_of {ia.tolist()} is not the cell of the mirrored measures {ib.tolist()}")
+            for m, want in zip(meas, ia):
+                got = a.index_of_single(m)
+                if int(got) != int(want):
+                    return bad(f"op#{k}: index_of_single({m.tolist()}) = {int(got)} but index_of gives {int(want)} "
+                               f"(index_of_single does not go through the overridden index_of)")
+            continue
+        sol = np.stack([np.arange(tok, tok + n, dtype=np.float64), -np.arange(tok, tok + n, dtype=np.float64)], axis=1)
+        tok += n
+        obj = r.integers(-8, 9, size=n).astype(np.float64) / 2
+        if op["op"] == "add":
+            fa, fb = a.add(sol, obj, meas), b.add(sol, obj, mirror(meas))
+            fa = [(int(s), float(v)) for s, v in zip(fa["status"], fa["value"])]
+            fb = [(int(s), float(v)) for s, v in zip(fb["status"], fb["value"])]
+        else:
+            fa, fb = [], []
+            for j in range(n):
+                x, y = a.add_single(sol[j], obj[j], meas[j]), b.add_single(sol[j], obj[j], mirror(meas[j]))
+                fa.append((int(x["status"]), float(x["value"])))
+                fb.append((int(y["status"]), float(y["value"])))
+        if fa != fb:
+            return bad(f"op#{k} {op['op']}: feedback {fa} but judged against the cell the hook routes to it is {fb}")
+        da, db = a.data(), b.data()
+        oa, ob = np.argsort(da["index"]), np.argsort(db["index"])
+        for f in ("index", "objective", "threshold", "solution"):
+            if not np.array_equal(da[f][oa], db[f][ob]):
+                return bad(f"op#{k} {op['op']}: stored {f} {da[f][oa].tolist()} differ from those of the stock archive fed "
+                           f"with the mirrored measures {db[f][ob].tolist()}")
+        # every stored elite is found through its own measures, singly and in batch
+        occ, got = a.retrieve(da["measures"])
+        if not np.all(occ) or not np.array_equal(got["index"], da["index"]):
+            return bad(f"op#{k}: retrieve on the stored measures finds cells {got['index'].tolist()} (occupied "
+                       f"{occ.tolist()}), stored in {da['index'].tolist()}")
+        for m, idx, sl in zip(da["measures"], da["index"], da["solution"]):
+            o1, e1 = a.retrieve_single(m)
+            if not o1 or int(e1["index"]) != int(idx) or not np.array_equal(e1["solution"], sl):
+                return bad(f"op#{k}: the elite stored in cell {int(idx)} with measures {m.tolist()} is not found by "
+                           f"retrieve_single on its own measures (occupied={bool(o1)}, index={int(e1['index'])})")
+    return None
+
 # ---------------------------------------------------------------------------------------------------- scale (oracle only)
 
 def gen_scale(rng):
